@@ -176,7 +176,7 @@ def run_tlc(module, cfg, scratch, workers=None, extra=None, timeout=600, env=Non
     for f in extra_modules:
         shutil.copy(f, wd)
     shutil.copy(cfg, os.path.join(wd, module + '.cfg'))
-    jopts = ['-Xss64m', '-Xmx' + heap, '-XX:+UseParallelGC']
+    jopts = ['-Xss64m', '-Xmx' + heap, '-XX:+UseParallelGC', '-XX:ParallelGCThreads=%d' % max(2, min(8, workers or 8))]
     if depth_first:
         jopts.append('-Dtlc2.tool.queue.IStateQueue=StateDeque')
     cmd = ['java'] + jopts + ['-cp', _classpath(), 'tlc2.TLC', '-metadir', os.path.join(wd, 'meta'), '-workers', str(workers or NCPU),
